@@ -3,22 +3,22 @@ usage: seed_prompt.py <new id e.g. G03> <property id> > prompt.txt"""
 import json, sys, os
 HERE = os.path.dirname(os.path.dirname(os.path.abspath(__file__)))
 PREV = {
- "C01": "purge removing closed chunks with retain/filter instead of a prefix; truncate_after(None) not resetting `last`; RaftLogState::purge not raising `last` when it is None",
- "C02": "purge removing closed chunks with retain/filter; open() removing a newest chunk that holds only its head record; TruncateAfter replay skipping split_off when the index is absent",
- "C03": "a flush with nothing pending skipping fdatasync; open() not restoring the cache eviction boundary when it re-opens the previous chunk; the chunk-gap check in open() run only after a truncated chunk",
- "C04": "a flush with nothing pending acknowledging on the caller thread; the worker skipping fdatasync when sync_id equals the flush offset; send_flush using try_send (WouldBlock on a full channel)",
- "C05": "purged chunk files unlinked newest-first; record-less newest file removed only when its length is 0; purge selecting chunks with retain (filter) instead of take-while",
- "C06": "validate skipping the id-order check for the consecutive index; truncate accepting index <= next(purged); append_and_apply rotating a full open chunk before validating",
- "C07": "the eviction boundary not moving backwards; the dump snapshot sharing the live cache; eviction comparing log indexes instead of log ids",
- "C08": "purge comparing indexes instead of log ids; batches without data bytes skipping the sync; purge popping obsolete chunks before journalling the purge record",
- "C09": "the gap check moved below the removal of a record-less newest file; positional read of a closed chunk skipping the checksum; open() forgiving a gap in front of a head-only newest chunk",
- "C10": "record-less newest file removed only if it was truncated; EOF with truncation disabled returning Ok(false); open() not restoring the eviction boundary when re-opening the previous chunk",
- "C11": "on_disk_size falling back to 0; append returning wal.last_segment() after the loop; purge selecting chunks with retain (filter)",
- "C12": "the decoder limiting a record to 1 MiB; the State record accepting version byte 0; the encoder using a thread-local buffer cleared only after success",
- "C13": "Drop unlinking the LOCK file before unlocking; open() listing the directory before taking the lock; Drop not joining the worker while panicking",
- "C14": "removals on a detached helper thread; the lock field moved before the wal field (drop order); Drop not joining the worker while panicking",
- "C15": "truncate(0) clearing the map but not the byte counter; drain_evictable returning early when nothing is pinned; eviction deferred during a batch append with the flag not reset on error",
- "C16": "read raising `from` past the inverted-range guard; purge computing next_log_index(None) - 1; the index-limit check skipped when the id is not above last",
+ "C01": "purge removing closed chunks with retain/filter instead of a prefix; truncate_after(None) not resetting `last`; RaftLogState::purge not raising `last` when it is None; truncate's purged-boundary test moved into get_log_id with the wrong index",
+ "C02": "purge removing closed chunks with retain/filter; open() removing a newest chunk that holds only its head record; TruncateAfter replay skipping split_off when the index is absent; open() rotating a full re-opened chunk with a stale head snapshot",
+ "C03": "a flush with nothing pending skipping fdatasync; open() not restoring the cache eviction boundary when it re-opens the previous chunk; the chunk-gap check in open() run only after a truncated chunk; open() removing a newest chunk that holds only its head record",
+ "C04": "a flush with nothing pending acknowledging on the caller thread; the worker skipping fdatasync when sync_id equals the flush offset; send_flush using try_send (WouldBlock on a full channel); the worker writing a batch with one write_vectored call",
+ "C05": "purged chunk files unlinked newest-first; record-less newest file removed only when its length is 0; purge selecting chunks with retain (filter) instead of take-while; the payload decode error re-wrapped as InvalidData",
+ "C06": "validate skipping the id-order check for the consecutive index; truncate accepting index <= next(purged); append_and_apply rotating a full open chunk before validating; check_vote rewritten with `<` (partial order)",
+ "C07": "the eviction boundary not moving backwards; the dump snapshot sharing the live cache; eviction comparing log indexes instead of log ids; PayloadCache::insert returning early when max_items is 0",
+ "C08": "purge comparing indexes instead of log ids; batches without data bytes skipping the sync; purge popping obsolete chunks before journalling the purge record; purge selecting chunks with retain",
+ "C09": "the gap check moved below the removal of a record-less newest file; positional read of a closed chunk skipping the checksum; open() forgiving a gap in front of a head-only newest chunk; any decode error in a chunk's head record treated as incomplete",
+ "C10": "record-less newest file removed only if it was truncated; EOF with truncation disabled returning Ok(false); open() not restoring the eviction boundary when re-opening the previous chunk; verify_trailing_zeros comparing a global offset with the file size",
+ "C11": "on_disk_size falling back to 0; append returning wal.last_segment() after the loop; purge selecting chunks with retain (filter); is_open_chunk_full using == for the record count",
+ "C12": "the decoder limiting a record to 1 MiB; the State record accepting version byte 0; the encoder using a thread-local buffer cleared only after success; the encoder under-reporting the size of TruncateAfter(None)",
+ "C13": "Drop unlinking the LOCK file before unlocking; open() listing the directory before taking the lock; Drop not joining the worker while panicking; Dump::new taking no lock when the LOCK file does not exist",
+ "C14": "removals on a detached helper thread; the lock field moved before the wal field (drop order); Drop not joining the worker while panicking; Drop waiting for the worker at most 2 seconds",
+ "C15": "truncate(0) clearing the map but not the byte counter; drain_evictable returning early when nothing is pinned; eviction deferred during a batch append with the flag not reset on error; the eviction loop stopping after 64 evictions per insert",
+ "C16": "read raising `from` past the inverted-range guard; purge computing next_log_index(None) - 1; the index-limit check skipped when the id is not above last; a diagnostic in truncate computing next_log_index(committed)",
 }
 new, pid = sys.argv[1], sys.argv[2]
 prop = None
